@@ -2,6 +2,7 @@ package hx
 
 import (
 	"context"
+	"errors"
 	"fmt"
 	"io"
 	"os"
@@ -30,8 +31,9 @@ func init() {
 // ---------------------------------------------------------------- topics
 
 type topicAct struct {
-	A string `json:"a"` // publish | next | close
+	A string `json:"a"` // publish | next | close | handle | cancel
 	S string `json:"s"`
+	K int    `json:"k"` // handle: the callback fails on its k-th value (0: never)
 }
 type topicObs struct {
 	InCall  []string          `json:"inCall"`
@@ -42,6 +44,7 @@ type topicObs struct {
 type topicInput struct {
 	Subs      []string     `json:"subs"`
 	Buffered  []string     `json:"buffered"`
+	Handlers  []string     `json:"handlers"` // consumed through Topic.Handle (not subscribed at the start)
 	Sequences [][]topicAct `json:"sequences"`
 }
 
@@ -53,12 +56,14 @@ type tproc struct {
 	got     atomic.Int64
 }
 
-func runTopicSequence(subs, buffered []string, seq []topicAct) (obsOut []topicObs, settledOut bool, panicOut string) {
-	o, ok, pm := runTopicSequenceInner(subs, buffered, seq)
+var errCallback = errors.New("callback failed")
+
+func runTopicSequence(subs, buffered, handlers []string, seq []topicAct) (obsOut []topicObs, settledOut bool, panicOut string) {
+	o, ok, pm := runTopicSequenceInner(subs, buffered, handlers, seq)
 	return o, ok, pm
 }
 
-func runTopicSequenceInner(subs, buffered []string, seq []topicAct) ([]topicObs, bool, string) {
+func runTopicSequenceInner(subs, buffered, handlers []string, seq []topicAct) ([]topicObs, bool, string) {
 	t := topics.New[int]()
 	ctx, cancel := context.WithCancel(context.Background())
 	defer cancel()
@@ -85,10 +90,18 @@ func runTopicSequenceInner(subs, buffered []string, seq []topicAct) ([]topicObs,
 			pub.inCall.Store(false)
 		}
 	}()
+	isHandler := map[string]bool{}
+	for _, h := range handlers {
+		isHandler[h] = true
+	}
+	cancels := map[string]context.CancelFunc{}
 	for _, s := range subs {
 		p := &tproc{cmd: make(chan string, 4)}
 		p.lastRet.Store("none")
 		procs[s] = p
+		if isHandler[s] {
+			continue // subscribes when Handle is called
+		}
 		sub := t.Subscribe(isBuf[s])
 		closeCmd := make(chan struct{}, 1)
 		go func(p *tproc) { // the subscriber's own goroutine: Next calls
@@ -154,6 +167,31 @@ func runTopicSequenceInner(subs, buffered []string, seq []topicAct) ([]topicObs,
 		case "close":
 			procs[a.S].inClose.Store(true)
 			closeCh[a.S] <- struct{}{}
+		case "handle":
+			p := procs[a.S]
+			k := a.K
+			hctx, hcancel := context.WithCancel(ctx)
+			cancels[a.S] = hcancel
+			p.inCall.Store(true)
+			go func() {
+				defer guard("Handle")
+				err := t.Handle(hctx, func(v int) error {
+					if n := p.got.Add(1); k != 0 && int(n) >= k {
+						return errCallback
+					}
+					return nil
+				})
+				if errors.Is(err, errCallback) {
+					p.lastRet.Store("cberr")
+				} else {
+					p.lastRet.Store("cancelled")
+				}
+				p.inCall.Store(false)
+			}()
+		case "cancel":
+			if c := cancels[a.S]; c != nil {
+				c()
+			}
 		}
 		// settle
 		var last string
@@ -200,7 +238,7 @@ func cmdTopic(args []string) error {
 	}
 	results := make([]res, len(in.Sequences))
 	ParallelFor(len(in.Sequences), 4, func(i int) {
-		obs, ok, pm := runTopicSequence(in.Subs, in.Buffered, in.Sequences[i])
+		obs, ok, pm := runTopicSequence(in.Subs, in.Buffered, in.Handlers, in.Sequences[i])
 		results[i] = res{in.Sequences[i], obs, ok, pm}
 	})
 	R := NewResult()
